@@ -54,7 +54,9 @@ CONSTANTS Instances,   \* set of instances (GlbFloorMC)
           Den,         \* ratio denominator
           TOLR,        \* ratio tolerance in 1/Den (0 in the model, solver tolerance in trace validation)
           TOLP,        \* position tolerance in lattice quanta (0 in the model)
-          EMIT         \* TRUE: print the instances (behaviour generation), explore nothing
+          EMIT,        \* TRUE: print the instances (behaviour generation), explore nothing
+          EMITSOL      \* TRUE: print every solution Optimize may return for the initial allocation (replayed into the
+                       \*       real extract_solution), instead of extracting it
 
 VARIABLES phase,   \* "init" | "ready" | "solved" | "extracted" | "returned" | "emitted"
           inst,    \* the instance (never changes)
@@ -129,18 +131,21 @@ Survivors(a, thr) == SelectSeq([ c \in DOMAIN a |-> c ], LAMBDA c : NonEmpty(Fil
 ExtractCells(cs, a, thr) == [ k \in DOMAIN Survivors(a, thr) |-> cs[Survivors(a, thr)[k]] ]
 ExtractRatio(a, thr) == [ k \in DOMAIN Survivors(a, thr) |-> FilterCell(a[Survivors(a, thr)[k]], thr) ]
 
-\* Allocation.refine / must_be_refined: a cell with a non-empty map in which no ratio exceeds the threshold
-Splits(rv, thr) == NonEmpty(rv) /\ \A m \in DOMAIN rv : rv[m] <= thr
-MustBeRefined(rt, thr) == \E c \in DOMAIN rt : \A m \in DOMAIN rt[c] : rt[c][m] <= thr
+\* Allocation.refine / must_be_refined: a cell that is not the rectangle of a fixed module, has a non-empty map, and
+\* in which no ratio exceeds the threshold.  (Before the fixes of C02/C12 in allocation.py the two functions differed
+\* on empty maps and on fixed rectangles; inside glbfloor that only mattered for threshold 1.0.)
+IsFixedCell(in, c) == \E f \in FixedMods(in) : \E k \in DOMAIN in.mods[f].rects : in.mods[f].rects[k] = c
+Splits(in, c, rv, thr) == ~IsFixedCell(in, c) /\ NonEmpty(rv) /\ \A m \in DOMAIN rv : rv[m] <= thr
+MustBeRefined(in, cs, rt, thr) == \E c \in DOMAIN cs : Splits(in, cs[c], rt[c], thr)
 HalvesOf(c) == LET p == Halve(RectOf(c)) IN << <<p[1].x1, p[1].y1, p[1].x2, p[1].y2>>, <<p[2].x1, p[2].y1, p[2].x2, p[2].y2>> >>
-RECURSIVE RefineCells(_, _, _), RefineRatio(_, _)
-RefineCells(cs, rt, thr) ==
+RECURSIVE RefineCells(_, _, _, _), RefineRatio(_, _, _, _)
+RefineCells(in, cs, rt, thr) ==
   IF cs = <<>> THEN <<>>
-  ELSE (IF Splits(Head(rt), thr) THEN HalvesOf(Head(cs)) ELSE <<Head(cs)>>) \o RefineCells(Tail(cs), Tail(rt), thr)
-RefineRatio(rt, thr) ==
+  ELSE (IF Splits(in, Head(cs), Head(rt), thr) THEN HalvesOf(Head(cs)) ELSE <<Head(cs)>>) \o RefineCells(in, Tail(cs), Tail(rt), thr)
+RefineRatio(in, cs, rt, thr) ==
   IF rt = <<>> THEN <<>>
-  ELSE (IF Splits(Head(rt), thr) THEN <<Head(rt), Head(rt)>> ELSE <<Head(rt)>>) \o RefineRatio(Tail(rt), thr)
-CanRefine(cs, rt, thr) == \A c \in DOMAIN cs : Splits(rt[c], thr) => CanHalve(RectOf(cs[c]))
+  ELSE (IF Splits(in, Head(cs), Head(rt), thr) THEN <<Head(rt), Head(rt)>> ELSE <<Head(rt)>>) \o RefineRatio(in, Tail(cs), Tail(rt), thr)
+CanRefine(in, cs, rt, thr) == \A c \in DOMAIN cs : Splits(in, cs[c], rt[c], thr) => CanHalve(RectOf(cs[c]))
 
 \* conformance of an observed refinement (order-free, tolerant of a ratio within tol of the threshold): every new
 \* cell is an old cell that did not have to split, or a half of an old cell that was allowed to split, with its ratios
@@ -150,12 +155,12 @@ HalfSet(c) == LET r == RectOf(c)
                   hx == IF CanHalveX(r) THEN { Rect4(HalveX(r)[1]), Rect4(HalveX(r)[2]) } ELSE {}
                   hy == IF CanHalveY(r) THEN { Rect4(HalveY(r)[1]), Rect4(HalveY(r)[2]) } ELSE {}
               IN IF W(r) = H(r) THEN hx \cup hy ELSE IF SplitsY(r) THEN hy ELSE hx
-RefineConforms(cs0, rt0, cs1, rt1, thr, tol) ==
+RefineConforms(in, cs0, rt0, cs1, rt1, thr, tol) ==
   /\ Len(cs1) = Len(rt1)
   /\ \A k \in DOMAIN cs1 : \E c \in DOMAIN cs0 :
         /\ rt1[k] = rt0[c]
-        /\ \/ cs1[k] = cs0[c] /\ ~Splits(rt0[c], thr - tol)
-           \/ cs1[k] \in HalfSet(cs0[c]) /\ Splits(rt0[c], thr + tol)
+        /\ \/ cs1[k] = cs0[c] /\ ~Splits(in, cs0[c], rt0[c], thr - tol)
+           \/ cs1[k] \in HalfSet(cs0[c]) /\ Splits(in, cs0[c], rt0[c], thr + tol)
   /\ SameRegion({ RectOf(cs0[c]) : c \in DOMAIN cs0 }, { RectOf(cs1[k]) : k \in DOMAIN cs1 })
 \* conformance of an observed optimisation result: cells are old cells, none is empty, no ratio at or below 1 - thr
 ExtractConforms(cs0, cs1, rt1, thr, tol) ==
@@ -217,7 +222,7 @@ Optimize == /\ phase = "ready"
 
 \* a solution in which every cell is left empty cannot be rebuilt into an Allocation: the code raises (outside the
 \* quantifier "for which the optimiser returns")
-Extract == /\ phase = "solved"
+Extract == /\ phase = "solved" /\ ~EMITSOL
            /\ Survivors(sol.a, inst.thr) # <<>>
            /\ cells' = ExtractCells(cells, sol.a, inst.thr)
            /\ ratio' = ExtractRatio(sol.a, inst.thr)
@@ -228,13 +233,13 @@ Extract == /\ phase = "solved"
            /\ UNCHANGED inst
 
 Refine == /\ phase = "extracted" /\ iter < inst.maxiter
-          /\ MustBeRefined(ratio, inst.thr) /\ CanRefine(cells, ratio, inst.thr)
-          /\ cells' = RefineCells(cells, ratio, inst.thr)
-          /\ ratio' = RefineRatio(ratio, inst.thr)
+          /\ MustBeRefined(inst, cells, ratio, inst.thr) /\ CanRefine(inst, cells, ratio, inst.thr)
+          /\ cells' = RefineCells(inst, cells, ratio, inst.thr)
+          /\ ratio' = RefineRatio(inst, cells, ratio, inst.thr)
           /\ phase' = "ready"
           /\ UNCHANGED <<inst, iter, centre, mrects, sol>>
 
-Stop == /\ phase = "extracted" /\ (iter >= inst.maxiter \/ ~MustBeRefined(ratio, inst.thr))
+Stop == /\ phase = "extracted" /\ (iter >= inst.maxiter \/ ~MustBeRefined(inst, cells, ratio, inst.thr))
         /\ phase' = "returned"
         /\ UNCHANGED <<inst, iter, cells, ratio, centre, mrects, sol>>
 
@@ -243,7 +248,17 @@ EmitCase == /\ EMIT /\ phase = "init"
             /\ phase' = "emitted"
             /\ UNCHANGED <<inst, iter, cells, ratio, centre, mrects, sol>>
 
-Next == EmitCase \/ InitAlloc \/ Optimize \/ Extract \/ Refine \/ Stop
+\* behaviour generation for Extract: the state before, and the solution (ratios, centres, mirror flags)
+EmitSolved == /\ EMITSOL /\ phase = "solved"
+              /\ PrintT(ToJson([ inst |-> inst, cells |-> cells, ratio |-> ratio, sol |-> sol,
+                                  \* where the solution puts the rectangles of the hard modules (the harness gives
+                                  \* their centres to the "fake" modules of the solver model)
+                                  placed |-> [ m \in ModsOf(inst) |-> IF m \in HardMov(inst)
+                                                 THEN Placed(mrects[m], sol.centre[m], sol.mx[m], sol.my[m]) ELSE <<>> ] ]))
+              /\ phase' = "emitted"
+              /\ UNCHANGED <<inst, iter, cells, ratio, centre, mrects, sol>>
+
+Next == EmitCase \/ EmitSolved \/ InitAlloc \/ Optimize \/ Extract \/ Refine \/ Stop
 Spec == Init /\ [][Next]_vars
 
 \* TLC view: between a Refine and the next Extract the centres and rectangles of the previous round are dead values
@@ -267,7 +282,7 @@ InvHardCongruent == Returnable => HardCongruent(inst, mrects, TOLP) /\ NoUnwante
 \* the cells always tile what the initial cells tiled minus what was dropped: refinement never creates or loses area
 InvRefineConforms == (phase = "ready" /\ iter > 0) => CellsDisjoint(cells) /\ CellsInDie(inst, cells)
 \* the concrete Extract / Refine operators meet the conformance predicates the trace specification uses
-ActRefineConforms == [][phase = "extracted" /\ phase' = "ready" => RefineConforms(cells, ratio, cells', ratio', inst.thr, 0)]_vars
+ActRefineConforms == [][phase = "extracted" /\ phase' = "ready" => RefineConforms(inst, cells, ratio, cells', ratio', inst.thr, 0)]_vars
 ActExtractConforms == [][phase = "solved" /\ phase' = "extracted" => ExtractConforms(cells, cells', ratio', inst.thr, 0)]_vars
 \* the centroid of a re-centred hard module is the centre the solver chose
 InvHardAtCentre == Returnable => \A m \in HardMov(inst) : Centroid2(mrects[m]) = <<2 * centre[m][1], 2 * centre[m][2]>>
